@@ -6,6 +6,7 @@ import (
 	"fmt"
 	"io"
 	"log/slog"
+	"math"
 	"runtime/debug"
 	"strings"
 	"sync"
@@ -83,6 +84,15 @@ func (g Gateway) Lock(ctx context.Context, in *hydrapb.LockRequest) (*hydrapb.Lo
 	if in.GetKey() == "" {
 		// return with grpc error message
 		return nil, status.Error(codes.InvalidArgument, "Lock key cannot be empty")
+	}
+
+	// Clamp the TTL before converting it: time.Duration counts nanoseconds in an int64, so
+	// TTL*time.Millisecond overflows above ~292 years' worth of milliseconds. An overflowed
+	// (negative or tiny) duration would make the auto-unlock watchdog release the lock at once
+	// while the caller believes it holds it.
+	const maxTTLMillis = int64(math.MaxInt64 / int64(time.Millisecond))
+	if in.GetTTL() > maxTTLMillis {
+		in.TTL = maxTTLMillis
 	}
 
 	// lock the system
